@@ -429,6 +429,8 @@ def families(tier):
         StringSub(),
         CreditTables(4, 4, (0, 1)),
         CreditTables(3, 3, (0, 0.25, 0.5, 1)),
+        CreditTables(2, 2, (0, 0.33, 1.0 / 3, 0.5, 0.504, 1)),          # credits closer together than half a percent
+        CreditTables(3, 2, (0, 0.33, 1.0 / 3, 0.996, 1), tiers=('thorough',)),
         CreditTables(3, 4, (0, 0.5, 1), tiers=('thorough',)),
         CreditTables(4, 3, (0, 0.5, 1), tiers=('thorough',)),
         CreditTables(5, 4, (0, 1), tiers=('thorough',)),
